@@ -201,6 +201,8 @@ func scenarioAffinity() int {
 		sentBys := []string{ua.IP + ":5060", ua.Name + ":5060", ua.IP + ":5099", ua.Name, ua.IP, ua.Name + ":5099"}
 		// ... and the true socket address of one of the open connections, announced by others too
 		sentBys = append(sentBys, conns[g.R.Intn(len(conns))].Local, conns[g.R.Intn(len(conns))].Local)
+		// ... and a name that the service's own host table and the global one define differently
+		sentBys = append(sentBys, wire.PeerName+":5060", wire.PeerName)
 		common := sentBys[g.R.Intn(len(sentBys))]
 		var txns []*afTxn
 		for c := range conns {
